@@ -6,6 +6,7 @@ package main
 
 import (
 	"fmt"
+	"hash/fnv"
 	"math/big"
 	"sort"
 	"strings"
@@ -604,11 +605,21 @@ func (n numCtx) round(a *T) *T {
 
 var freshCounter int64
 
+var _ = atomic.AddInt64
+
+// floor variables are named after their argument, so the same floor is the
+// same variable everywhere (definitions may then be asserted more than once).
 func freshIntDef(a *T, sink func(*T)) *T {
-	k := mkVar(fmt.Sprintf("flr!%d", atomic.AddInt64(&freshCounter, 1)), SInt)
+	k := mkVar("flr!"+hashTerm(a), SInt)
 	kr := toReal(k)
 	sink(mkAnd(mkCmp("<=", kr, a), mkCmp("<", a, mkArith("+", kr, mkReal(ratInt(1))))))
 	return k
 }
 
 var plainNum = numCtx{floorFn: func(a *T) *T { return floorInt(a) }}
+
+func hashTerm(t *T) string {
+	h := fnv.New64a()
+	h.Write([]byte(t.String()))
+	return fmt.Sprintf("%x", h.Sum64())
+}
